@@ -30,7 +30,7 @@ PROPS = {
     "C10": dict(profiles=[("nav", 150, 1500)], tags={"seek", "cursor"}, checks=[], corr={"only": {"seek", "seekstop", "iterstop", "cget", "cursor", "cmin", "cmax", "cceil", "cfwd", "cbwd"}}),
     "C11": dict(profiles=[("versions", 40, 400)], tags=FUNC | {"race", "alone"}, checks=[], corr={}, special="race"),
     "C12": dict(profiles=[], tags={"atomic", "retry"}, checks=[], corr={}, special="faults"),
-    "C13": dict(profiles=[("persist", 150, 1500)], tags={"garbage", "noop", "count", "dirty"}, checks=["persist"], corr={"only": {"mkroot", "dirty"}, "stores": "sub"}),
+    "C13": dict(profiles=[("persist", 150, 1500), ("versions", 30, 300)], tags={"garbage", "noop", "count", "dirty"}, checks=["persist"], corr={"only": {"mkroot", "dirty"}, "stores": "sub"}),
     "C14": dict(profiles=[("keyfuncs", 40, 400), ("persist", 60, 600)], tags={"layer", "cmp", "golden", "encoding", "name"}, checks=["names", "encoding"],
                 corr={"only": {"layer", "cmp", "mkroot"}, "stores": "eq"}, special="golden"),
     "C15": dict(profiles=[("diff", 200, 2000)], tags={"reads-diff"}, checks=["linkdiff"], corr={"only": {"difflinks"}, "links_as_sets": True, "loads": "sub"},
